@@ -328,11 +328,13 @@ def _q_from_pandas_u2(env, npartitions=2, sort=False):
 
 
 def _q_flaky(env, tag="t1", nparts=4):
-    return env.A(nparts)[["a", "b"]].map_partitions(flaky, tag)
+    x = env.A(nparts)[["a", "b"]]
+    return x.map_partitions(flaky, tag, meta=x._meta)
 
 
 def _q_flaky_sort(env, tag="t2", nparts=4):
-    return env.A(nparts)[["a", "c"]].map_partitions(flaky, tag).sort_values("c", shuffle_method="tasks")
+    x = env.A(nparts)[["a", "c"]]
+    return x.map_partitions(flaky, tag, meta=x._meta).sort_values("c", shuffle_method="tasks")
 
 
 def _q_mapp(env, k=1, nparts=4):
@@ -422,7 +424,8 @@ POOL = {
     "shuffle_disk": (_q_shuffle, {"method": "disk"}, [("on", "a"), ("npartitions", 2)], {"sort_rows": True, "tags": ["disk"]}),
     "repart_n": (_q_repart_n, {}, [("npartitions", 3), ("nparts", 5)], {}),
     "repart_div": (_q_repart_div, {}, [("divisions", (0, 20, 39)), ("nparts", 3)], {}),
-    "repart_size": (_q_repart_size, {}, [("size", "300B"), ("nparts", 5), ("col", "a")], {"tags": ["memusage"]}),
+    "repart_size": (_q_repart_size, {}, [("size", "300B"), ("col", "a"), ("col", "b"), ("col", "c"), ("col", "s")] + [("nparts", k) for k in (2, 3, 5, 6, 7, 8, 9, 10)],
+                    {"tags": ["memusage"]}),
     "concat": (_q_concat, {}, [("nparts", 3), ("other_parts", 1)], {}),
     "concat1": (_q_concat1, {}, [("nparts", 2)], {}),
     "head": (_q_head, {}, [("n", 6), ("nparts", 3)], {}),
@@ -473,6 +476,14 @@ def build(qid, pq_path, variation=None):
         k, v = variants[variation]
         params[k] = v
     return fn(Env(pq_path), **params)
+
+
+def fail_tag(qid, variation=None):
+    """the failure-injection tag a flaky query listens to"""
+    fn, base, variants, fl = POOL[qid]
+    if variation is not None and variants[variation][0] == "tag":
+        return variants[variation][1]
+    return fl.get("fail_tag")
 
 
 def build_all(pq_path, qids=None):
@@ -617,6 +628,10 @@ def child_main():
                 continue
             res.update(observe_loaded(obj, bool(it.get("sort_rows"))))
             out[it["id"]] = res
+    elif kind == "history":
+        from harness.props import c15
+
+        out = c15.run_history(job["steps"], job["pq"])
     else:
         out = {"error": "unknown job kind"}
     sys.stdout.write("\n@@RESULT@@" + json.dumps(out) + "\n")
